@@ -8,7 +8,7 @@ PROPS["C02"] = dict(
                "(serialize consults the OS routing table). PPI/PKTAP roots must refuse with pdu_not_serializable.",
     phases=[dict(name="parsed", harness="c02.cpp", flavor="asan", mode="parsed", cases=dict(quick=14000, thorough=600000)),
             dict(name="built", harness="c02.cpp", flavor="asan", mode="built", cases=dict(quick=60000, thorough=3000000)),
-            dict(name="options", harness="c02.cpp", flavor="asan", mode="options", cases=dict(quick=256 * 11 * 7 * 2, thorough=256 * 11 * 7 * 2))],
+            dict(name="options", harness="c02.cpp", flavor="asan", mode="options", cases=dict(quick=256 * 15 * 7 * 2, thorough=256 * 15 * 7 * 2))],
     rule="case = parsed input (entry point x seed/truncation/mutation/generated) | API program (+ up to 3 edit rounds, re-serialized after each) | (class, option code 0..255, data length, payload y/n); "
          "distinct = distinct (layer chain, size, first 64 serialized bytes)",
     floors=dict(any={"distinct": 20000, "hook_layer_serializations": 500000, "packets_checked": 100000, "serializations_after_edit": 10000,
